@@ -1455,4 +1455,4 @@ TARGETS = [
 # keeps each property's check to the templates that exercise its subject)
 for _t in TARGETS:
     lazy = any(k in _t["name"] for k in ("atoms", "cond", "paren3", "chain4", "list", "map", "match", "lazy", "fail"))
-    _t["props"] = ["C02", "C09", "C17", "C18", "C10"] + (["C05"] if lazy else []) + (["C01"] if _t["name"] in ("gram_atoms2", "gram_call", "gram_unary") else []) + (["C14"] if _t["name"] == "gram_fstring" else [])
+    _t["props"] = ["C02", "C09", "C17", "C18", "C10"] + (["C05"] if lazy else []) + (["C01"] if _t["name"] in ("gram_atoms2", "gram_call", "gram_unary") else []) + (["C14"] if _t["name"] == "gram_fstring" else []) + (["C06"] if _t["name"] in ("gram_list", "gram_map", "gram_map_const", "gram_map_field", "gram_index") else [])
